@@ -1,11 +1,14 @@
 """C20 -- file patterns resolve to exactly the matching files.
 
 Case kinds (first element is the kind code, see coq/Run/C20_run.v):
-  (0, cwd, [relative file, ...], all_expr)   "res": a real scratch tree with those files is created under
+  (0, cwd, [relative file, ...], [file text, ...], [file attribute, ...], all_expr)
+        "res": a real scratch tree with those files is created under
         $VERIF_ROOT/.work/, the process changes into it, File.resolve_filenames(all_expr),
         Context().textFile(all_expr).collect() and the file names in the order wholeTextFiles / binaryFiles
-        deliver them are observed.  Every file's content is its own absolute path, so
-        the collected lines show which file was read at which position.  The tree lives at a symbolic root
+        deliver them are observed.  File texts vary (zero bytes, one byte, the file's own absolute path,
+        several lines, a few hundred bytes; names with codec extensions hold really compressed text) and so do
+        attributes the resolver must not look at (0 plain, 1 symbolic link to a copy outside the tree, 2 part of a
+        directory really written by saveAsTextFile -- including empty partitions --, 3 read-only, 4 old mtime).  The tree lives at a symbolic root
         (ROOT_SYM) inside the case; the real scratch directory is substituted on the way in and mapped back
         on the way out, so a case does not depend on the machine it was generated on.
   (1, pattern)  "fnm": bit mask of the fnmatch used by fileio/fs/local.py over all 364 names of length <= 5
@@ -14,6 +17,8 @@ Case kinds (first element is the kind code, see coq/Run/C20_run.v):
   (6, s) s.split(',')
 """
 import atexit
+import bz2
+import gzip
 import hashlib
 import itertools
 import json
@@ -38,8 +43,10 @@ KIND_NAMES = ['res', 'fnm', 'dirname', 'strip', 'tok', 'getfs', 'split']
 # signature of the defect this check found (repaired in /repo by 9d8ea91); kept as a specific label
 KNOWN_SIG = 'Local.resolve_filenames:missing:wildcard-in-first-component-of-relative-pattern'
 
-RULE = ('res cases: small directory trees (plain files, part-file directories with a _SUCCESS marker, nested '
-        'directories, names with dots/spaces/non-ASCII; exhaustive sub-trees of a 6-path universe in the small '
+RULE = ('res cases: small directory trees (plain files, part-file directories with a _SUCCESS marker -- some really '
+        'written by saveAsTextFile with empty partitions --, nested directories up to depth 4, names with dots/spaces/'
+        'non-ASCII/codec extensions/hidden prefixes; file sizes vary: zero bytes, one byte, several lines, a few hundred '
+        'bytes; attributes vary: symbolic link, read-only, old mtime; exhaustive sub-trees of a 6-path universe in the small '
         'scope) x patterns built from the names of their files and directories with ? and * substituted at every '
         'position, runs replaced by *, two wildcards, literal names, non-existent names; each relative, ./-prefixed, '
         'absolute, with and without file://, and comma combinations with optional blanks; plus every pattern up to '
@@ -48,10 +55,11 @@ RULE = ('res cases: small directory trees (plain files, part-file directories wi
         'non-trivial = at least one file resolved (res) / at least one name matched (fnm); distinct by canonical '
         'JSON of the case')
 ASSUMPTIONS = [
-    "patterns contain no '[' (fnmatch character classes are outside the model) and no '..' component; no symbolic links",
+    "patterns contain no '[' (fnmatch character classes are outside the model) and no '..' component",
     'absolute patterns have their first wildcard below the scratch tree root (the walk would otherwise start '
     'above the tree); the scratch root is replaced by the symbolic root %s in cases and results' % ROOT_SYM,
-    'file names avoid codec extensions (.gz .bz2 ...), commas and leading/trailing blanks',
+    'file names avoid commas and leading/trailing blanks; files named *.gz / *.bz2 hold really compressed text (or are empty); '
+    'file texts use \\n as their only line break; no symbolic links to directories, no dangling links',
     'remote schemes (s3, gs, http, hdfs) are not exercised; unknown schemes raise NotImplementedError',
     'the order of File.resolve_filenames itself follows os.walk and is compared as a sorted list; '
     'the reader order (textFile(...).collect()) is compared exactly',
@@ -73,7 +81,7 @@ atexit.register(_cleanup)
 
 def kind(p):
     if p[0] == RES:
-        e = p[3]
+        e = p[5]
         k = 'res'
         if ',' in e:
             k += '-comma'
@@ -88,21 +96,88 @@ def kind(p):
 
 
 # ------------------------------------------------------------------ scratch trees
-def ensure_tree(files):
-    key = tuple(files)
+PLAIN, SYMLINK, SAVED, READONLY, OLD = range(5)
+CODECS = {'.gz': gzip.compress, '.bz2': bz2.compress}
+SAVE_REWRITES = [0]
+
+
+def disk_bytes(rel, text):
+    data = text.encode('utf8')
+    for ext, comp in CODECS.items():
+        if rel.endswith(ext) and data:
+            return comp(data)
+    return data
+
+
+def lines_of(text):
+    """str.splitlines for texts whose only line break is \\n (own version, used by the oracle)"""
+    parts = text.split('\n')
+    if parts[-1] == '':
+        parts.pop()
+    return parts
+
+
+def ensure_tree(files, contents, attrs):
+    key = (tuple(files), tuple(contents), tuple(attrs))
     if key in _trees:
         return _trees[key]
-    h = hashlib.sha1(json.dumps(list(key)).encode()).hexdigest()[:12]
-    root = os.path.join(_BASE, f'{len(_trees)}_{h}', 'r')
-    for rel in files:
+    if not (len(files) == len(contents) == len(attrs)):
+        raise ValueError('files / contents / attributes differ in length')
+    h = hashlib.sha1(json.dumps([list(k) for k in key]).encode()).hexdigest()[:12]
+    top = os.path.join(_BASE, f'{len(_trees)}_{h}')
+    root = os.path.join(top, 'r')
+    os.makedirs(root, exist_ok=True)
+    for rel, text in zip(files, contents):
         comps = rel.split('/')
         if rel.startswith('/') or any(c in ('', '.', '..') for c in comps):
             raise ValueError(f'not a canonical relative file path: {rel!r}')
+        if any(c in text for c in '\r\x0b\x0c\x1c\x1d\x1e\x85\u2028\u2029'):
+            raise ValueError('file text with a line break other than \\n')
+    # directories really written by saveAsTextFile (first: the directory must not exist yet)
+    saved = {}
+    for rel, text, a in zip(files, contents, attrs):
+        if a == SAVED and posixpath.basename(rel).startswith('part-'):
+            saved.setdefault(posixpath.dirname(rel), []).append((rel, text))
+    for d, parts in saved.items():
+        parts.sort()
+        if len(parts) < 2:
+            continue
+        elems = [ln for _, text in parts for ln in lines_of(text)]
+        try:
+            os.makedirs(os.path.dirname(os.path.join(root, d)), exist_ok=True)
+            pysparkling.Context().parallelize(elems, len(parts)).saveAsTextFile(os.path.join(root, d))
+        except Exception:  # pylint: disable=broad-except
+            pass
+    for idx, (rel, text, a) in enumerate(zip(files, contents, attrs)):
         path = os.path.join(root, rel)
+        data = disk_bytes(rel, text)
+        if a == SAVED and os.path.isfile(path):
+            with open(path, 'rb') as f:
+                if f.read() == data:
+                    continue
+            SAVE_REWRITES[0] += 1
         os.makedirs(os.path.dirname(path), exist_ok=True)
-        with open(path, 'w', encoding='utf8') as f:
-            f.write(ROOT_SYM + '/' + rel)
-    os.makedirs(root, exist_ok=True)
+        if a == SYMLINK:
+            ext = os.path.join(top, 'ext')
+            os.makedirs(ext, exist_ok=True)
+            with open(os.path.join(ext, str(idx)), 'wb') as f:
+                f.write(data)
+            os.symlink(os.path.join(ext, str(idx)), path)
+            continue
+        with open(path, 'wb') as f:
+            f.write(data)
+        if a == READONLY:
+            os.chmod(path, 0o444)
+        elif a == OLD:
+            os.utime(path, (1_000_000_000, 1_000_000_000))
+    # nothing but the listed files may exist (a save that wrote something else would change the tree)
+    listed = set(files)
+    for dp, _, fns in os.walk(root):
+        for fn in fns:
+            rel = os.path.relpath(os.path.join(dp, fn), root)
+            if rel not in listed:
+                os.remove(os.path.join(dp, fn))
+                SAVE_REWRITES[0] += 1
     _trees[key] = root
     return root
 
@@ -158,10 +233,10 @@ def impl(p):
 
 
 def impl_res(p):
-    _, cwd, files, expr = p
+    _, cwd, files, contents, attrs, expr = p
     if cwd != ROOT_SYM or not safe(expr):
         return Err('UnsafePattern')
-    root = ensure_tree(files)
+    root = ensure_tree(files, contents, attrs)
     real = expr.replace(ROOT_SYM, root)
 
     def sym(s):
@@ -287,7 +362,7 @@ def oracle(p, r):
         return None
     if k != RES:
         return None
-    _, _, files, expr = p
+    _, _, files, contents, _, expr = p
     if isinstance(r, Err):
         return None if r.name == 'UnsafePattern' else ('impl:' + r.name, 'harness error')
     names, coll, whole, binary = r
@@ -323,7 +398,8 @@ def oracle(p, r):
     # readers process the resolved files in sorted path order
     if isinstance(coll, Err):
         return ('textFile:raises:' + coll.name, f'textFile({expr!r}).collect() raised {coll.name}')
-    want = [posixpath.normpath(n if n.startswith('/') else ROOT_SYM + '/' + n) for n in sorted(names)]
+    text_of = dict(zip(files, contents))
+    want = [ln for n in sorted(names) for ln in lines_of(text_of[to_rel(n)])]
     if sorted(coll) != sorted(want):
         return ('textFile:files-differ', f'textFile({expr!r}) read {coll!r}, resolved {want!r}')
     if coll != want:
@@ -351,45 +427,121 @@ FNM_NAMES = [''.join(t) for n in range(6) for t in itertools.product('a./', repe
 FNM_PAT_ALPHA = 'a./*?'
 
 FILE_NAMES = ['a.txt', 'b.txt', 'ab.txt', 'x.txt', 'data.csv', 'notes', 'part', 'partial.txt', 'apart', '.hidden',
-              'my file.txt', '\u00e9.txt', '_SUCCESS', 'a', 'b', 'part-00000', 'a-b_c.d', 'x+y.txt', 'A.TXT']
-DIR_NAMES = ['d', 'data', 'out', 'out2', 'sub', 'x', 'logs', 'dat', 'o.d', 'a', 'part-dir', 'my dir', 'dd']
+              'my file.txt', '\u00e9.txt', '_SUCCESS', 'a', 'b', 'part-00000', 'a-b_c.d', 'x+y.txt', 'A.TXT',
+              'c.gz', 'n.bz2', '.part-00000.crc', '_temporary', '.x.txt.swp', 'part-00001.gz']
+DIR_NAMES = ['d', 'data', 'out', 'out2', 'sub', 'x', 'logs', 'dat', 'o.d', 'a', 'part-dir', 'my dir', 'dd', '.cache', '_tmp']
 
-DOC_TREE = ['a.txt', 'd/x.txt', 'data/x.txt', 'out/_SUCCESS', 'out/part-00000', 'out/part-00001', 'out/sub/b.txt']
-SMALL_UNIVERSE = ['a', 'd/a', 'd/part-0', 'd/_SUCCESS', 'da/a', 'd/d/a']
+
+def path_text(rel):
+    return ROOT_SYM + '/' + rel
+
+
+def gen_content(rng, rel):
+    base = posixpath.basename(rel)
+    r = rng.random()
+    if base == '_SUCCESS':
+        return '' if r < 0.85 else 'done\n'
+    if r < 0.40:
+        return path_text(rel)
+    if r < 0.62:
+        return ''
+    if r < 0.72:
+        return 'x'
+    if r < 0.92:
+        return path_text(rel) + '\nsecond line of ' + base + '\n'
+    return ''.join(f'{i} {rel}\n' for i in range(12))
+
+
+def gen_attr(rng):
+    r = rng.random()
+    return PLAIN if r < 0.8 else SYMLINK if r < 0.88 else READONLY if r < 0.94 else OLD
+
+
+_saved_cache = {}
+
+
+def saved_dataset(elems, n):
+    """(file name, text) pairs of a directory really written by parallelize(elems, n).saveAsTextFile"""
+    key = (tuple(elems), n)
+    if key not in _saved_cache:
+        d = os.path.join(_BASE, 'gen', str(len(_saved_cache)), 'ds')
+        os.makedirs(os.path.dirname(d), exist_ok=True)
+        pysparkling.Context().parallelize(list(elems), n).saveAsTextFile(d)
+        out = []
+        for fn in sorted(os.listdir(d)):
+            with open(os.path.join(d, fn), encoding='utf8') as f:
+                out.append((fn, f.read()))
+        _saved_cache[key] = out
+    return _saved_cache[key]
 
 
 def gen_dir(rng, depth):
-    """relative file paths of one directory's content"""
+    """(relative path, text, attribute) triples of one directory's content"""
     out = []
     style = rng.random()
-    if style < 0.4:
-        # written by a multi-partition save
+    if style < 0.25:
+        # really written by a multi-partition save, usually with more partitions than elements
+        k = rng.choice([0, 0, 1, 2, 2, 3])
+        n = rng.choice([2, 3, 4, 5])   # a single partition is written as one plain file, not a directory
+        elems = [f'e{i}' for i in range(k)]
+        out += [(fn, text, SAVED) for fn, text in saved_dataset(elems, n)]
+        if rng.random() < 0.25:
+            f = rng.choice(['partial.txt', 'other.txt', '.part-00000.crc', 'apart', 'sub/part-00000', 'part-x/y'])
+            out.append((f, gen_content(rng, f), gen_attr(rng)))
+    elif style < 0.45:
+        # laid out like a dataset directory, arbitrary sizes
         n = rng.randint(1, 3)
-        out += [f'part-{i:05d}' for i in range(n)] + ['_SUCCESS']
+        for i in range(n):
+            out.append((f'part-{i:05d}', '' if rng.random() < 0.4 else f'row {i}\n' * rng.randint(1, 3), gen_attr(rng)))
+        out.append(('_SUCCESS', gen_content(rng, '_SUCCESS'), PLAIN))
         if rng.random() < 0.3:
-            out.append(rng.choice(['partial.txt', 'other.txt', '.part-00000.crc', 'apart', 'sub/part-00000', 'part-x/y']))
+            f = rng.choice(['partial.txt', 'other.txt', '.part-00000.crc', 'apart', 'sub/part-00000', 'part-x/y'])
+            out.append((f, gen_content(rng, f), gen_attr(rng)))
     else:
         for _ in range(rng.randint(1, 3)):
-            if depth < 2 and rng.random() < 0.35:
+            if depth < 3 and rng.random() < 0.35:
                 d = rng.choice(DIR_NAMES)
-                out += [d + '/' + f for f in gen_dir(rng, depth + 1)]
+                out += [(d + '/' + f, t, a) for f, t, a in gen_dir(rng, depth + 1)]
             else:
-                out.append(rng.choice(FILE_NAMES))
+                f = rng.choice(FILE_NAMES)
+                out.append((f, gen_content(rng, f), gen_attr(rng)))
     return out
 
 
+def mk_tree(triples):
+    """sorted, duplicate-free (files, contents, attrs); a path cannot be a file and a directory at once"""
+    byname = {}
+    for f, t, a in triples:
+        byname.setdefault(f, (t, a))
+    files = sorted(byname)
+    keep = [f for f in files if not any(g.startswith(f + '/') for g in files)][:10]
+    # a directory written by a save stays complete (or loses the attribute)
+    return keep, [byname[f][0] for f in keep], [byname[f][1] if byname[f][1] != SAVED or all(
+        g in keep for g in files if posixpath.dirname(g) == posixpath.dirname(f)) else PLAIN for f in keep]
+
+
 def gen_tree(rng):
-    files = set()
+    triples = []
     for _ in range(rng.randint(1, 4)):
         if rng.random() < 0.4:
-            files.add(rng.choice(FILE_NAMES))
+            f = rng.choice(FILE_NAMES)
+            triples.append((f, gen_content(rng, f), gen_attr(rng)))
         else:
             d = rng.choice(DIR_NAMES)
-            files.update(d + '/' + f for f in gen_dir(rng, 1))
-    # a path cannot be a file and a directory at once
-    files = sorted(files)
-    keep = [f for f in files if not any(g.startswith(f + '/') for g in files)]
-    return keep[:10]
+            triples += [(d + '/' + f, t, a) for f, t, a in gen_dir(rng, 1)]
+    return mk_tree(triples)
+
+
+DOC_FILES = ['a.txt', 'd/x.txt', 'data/x.txt', 'out/_SUCCESS', 'out/part-00000', 'out/part-00001', 'out/sub/b.txt']
+DOC_TREE = (DOC_FILES, [path_text('a.txt'), 'x', '', '', '', 'row 1\n', path_text('out/sub/b.txt') + '\nsecond\n'],
+            [PLAIN] * 7)
+SMALL_UNIVERSE = ['a', 'd/a', 'd/part-0', 'd/_SUCCESS', 'da/a', 'd/d/a']
+
+
+def small_tree(mask, salt):
+    files = [f for i, f in enumerate(SMALL_UNIVERSE) if mask >> i & 1]
+    contents = ['' if (i + salt + mask) % 2 == 0 else path_text(f) for i, f in enumerate(files)]
+    return files, contents, [PLAIN] * len(files)
 
 
 def names_of(files):
@@ -455,8 +607,9 @@ def ok_item(it):
     return '[' not in it and ',' not in it and it == it.strip() and '..' not in it.split('/')
 
 
-def tree_cases(rng, files, per_name_all, n_random, n_comma, n_odd=6):
+def tree_cases(rng, tree, per_name_all, n_random, n_comma, n_odd=6):
     cases = []
+    files, contents, attrs = tree
     names = names_of(files)
     pats = []
     for n in names:
@@ -482,13 +635,13 @@ def tree_cases(rng, files, per_name_all, n_random, n_comma, n_odd=6):
         pats.append(q)
     pats = [q for q in pats if ok_item(q) and not q.startswith('/')]
     for q in pats:
-        cases.append((RES, ROOT_SYM, list(files), styled(rng, q)))
+        cases.append((RES, ROOT_SYM, list(files), list(contents), list(attrs), styled(rng, q)))
     for _ in range(n_comma):
         k = rng.choice([2, 2, 3])
         its = [styled(rng, rng.choice(pats)) for _ in range(k)]
         if rng.random() < 0.3:
             its = [rng.choice(['', ' ', '  ']) + it + rng.choice(['', ' ', '\t']) for it in its]
-        cases.append((RES, ROOT_SYM, list(files), ','.join(its)))
+        cases.append((RES, ROOT_SYM, list(files), list(contents), list(attrs), ','.join(its)))
     return cases
 
 
@@ -517,30 +670,47 @@ def generate(rng, tier):
     quick = tier == 'quick'
     cases = load_corpus()
     # documentation-style tree: every single substitution on every name, all styles for the literals
-    for q in names_of(DOC_TREE) + ['out/', 'out/sub', 'foo://x', 'a.txt,a.txt', ' a.txt , out ', 'out//part*', 'out/./part*',
+    for q in names_of(DOC_FILES) + ['out/', 'out/sub', 'foo://x', 'a.txt,a.txt', ' a.txt , out ', 'out//part*', 'out/./part*',
                                   'a.txt/x*', 'a.txt/', './a.txt', '.', './', 'd*/x.txt', 'da?a/x.txt', '*/x.txt', '?/x.txt',
                                   'file://foo://x', 'http-x', 'a.txt,foo://y', 'foo://y,a.txt', 'ou?', 'o*t', 'out*',
                                   'out/part-0000?', 'out/_SUCCESS', 'out/_*', '*SUCCESS', 'out/sub/*', 'out,out/sub/b.txt',
                                   'nonexistent,a.txt', 'a.txt,nonexistent*', ',', 'a.txt,', ',a.txt']:
         for st in (0, 2, 4) if ok_item(q) and not q.startswith('.') and '://' not in q and q not in ('', ',') else (0,):
-            cases.append((RES, ROOT_SYM, DOC_TREE, styled(rng, q, st) if st else q))
+            cases.append((RES, ROOT_SYM) + DOC_TREE + (styled(rng, q, st) if st else q,))
     cases += tree_cases(rng, DOC_TREE, True, 40, 40)
+    # sizes and attributes: datasets really written with empty partitions, an empty dataset, zero-byte / one-byte /
+    # larger files, compressed text under codec extensions, a symbolic link, a read-only and an old file, hidden names
+    triples = [('sparse/' + fn, t, SAVED) for fn, t in saved_dataset(['e0', 'e1'], 5)]
+    triples += [('none/' + fn, t, SAVED) for fn, t in saved_dataset([], 2)]
+    triples += [('e.txt', '', PLAIN), ('one.txt', 'x', PLAIN), ('big.txt', ''.join(f'{i} big\n' for i in range(30)), PLAIN),
+                ('c.gz', 'zipped 1\nzipped 2\n', PLAIN), ('z.gz', '', PLAIN), ('lnk.txt', 'linked\n', SYMLINK),
+                ('ro.txt', path_text('ro.txt'), READONLY), ('old.txt', '', OLD), ('.hidden', '', PLAIN),
+                ('_tmp/part-00000', '', PLAIN), ('_tmp/_SUCCESS', 'done\n', PLAIN)]
+    files = sorted(t[0] for t in triples)
+    byname = {t[0]: t for t in triples}
+    attr_tree = (files, [byname[f][1] for f in files], [byname[f][2] for f in files])
+    for q in ['sparse', 'none', 'spars?', 'n?ne', '*', '*.txt', '?.gz', 'sparse,none', 'none,e.txt', 'sparse/part-*', 'sparse/*',
+              '_tmp', '.hidden', '.*', '_*', 'e.txt,one.txt,big.txt', '*e', 's*e']:
+        for st in (0, 2, 3, 4):
+            cases.append((RES, ROOT_SYM) + attr_tree + (styled(rng, q, st) if ',' not in q else q,))
+    cases += tree_cases(rng, attr_tree, False, 30, 30)
     # random trees
-    for _ in range(10 if quick else 100):
-        files = gen_tree(rng)
-        if not files:
+    for _ in range(12 if quick else 100):
+        tree = gen_tree(rng)
+        if not tree[0]:
             continue
-        cases += tree_cases(rng, files, not quick, 25 if quick else 60, 15 if quick else 40)
+        cases += tree_cases(rng, tree, not quick, 25 if quick else 60, 15 if quick else 40)
     # small scope: sub-trees of a 6-path universe x every pattern up to length 4 over {a,d,/,*,?}
     sp = small_scope_patterns()
-    subsets = [[f for i, f in enumerate(SMALL_UNIVERSE) if m >> i & 1] for m in range(1, 1 << len(SMALL_UNIVERSE))]
+    masks = range(1, 1 << len(SMALL_UNIVERSE))
     if quick:
         for _ in range(700):
-            cases.append((RES, ROOT_SYM, rng.choice(subsets), rng.choice(sp)))
+            cases.append((RES, ROOT_SYM) + small_tree(rng.choice(masks), rng.randrange(2)) + (rng.choice(sp),))
     else:
-        for files in subsets:
+        for m in masks:
+            tree = small_tree(m, rng.randrange(2))
             for q in sp:
-                cases.append((RES, ROOT_SYM, files, q))
+                cases.append((RES, ROOT_SYM) + tree + (q,))
     # fnmatch semantics, exhaustive
     fpats = [''.join(t) for n in range(5) for t in itertools.product(FNM_PAT_ALPHA, repeat=n)]
     five = [''.join(t) for t in itertools.product(FNM_PAT_ALPHA, repeat=5)]
@@ -577,19 +747,51 @@ def shrink_candidates(p):
             for i in range(len(p[1])):
                 yield (p[0], p[1][:i] + p[1][i + 1:])
         return
-    _, cwd, files, expr = p
+    _, cwd, files, contents, attrs, expr = p
+
+    def mk(fl, cl, al, e):
+        # a directory written by a save must stay complete: drop the attribute when shrinking the tree
+        return (RES, cwd, fl, cl, [PLAIN if a == SAVED and len(fl) != len(files) else a for a in al], e)
     for i in range(len(files)):
         if len(files) > 1:
-            yield (RES, cwd, files[:i] + files[i + 1:], expr)
+            yield mk(files[:i] + files[i + 1:], contents[:i] + contents[i + 1:], attrs[:i] + attrs[i + 1:], expr)
+    if any(a != PLAIN for a in attrs):
+        yield (RES, cwd, files, contents, [PLAIN] * len(files), expr)
     its = expr.split(',')
     if len(its) > 1:
         for i in range(len(its)):
-            yield (RES, cwd, files, ','.join(its[:i] + its[i + 1:]))
+            yield mk(files, contents, attrs, ','.join(its[:i] + its[i + 1:]))
     if expr.startswith('file://'):
-        yield (RES, cwd, files, expr[7:])
+        yield mk(files, contents, attrs, expr[7:])
     if expr.startswith(ROOT_SYM + '/'):
-        yield (RES, cwd, files, expr[len(ROOT_SYM) + 1:])
+        yield mk(files, contents, attrs, expr[len(ROOT_SYM) + 1:])
     for i in range(len(expr)):
         if expr[i] in ',/' or ROOT_SYM in expr:
             continue
-        yield (RES, cwd, files, expr[:i] + expr[i + 1:])
+        yield mk(files, contents, attrs, expr[:i] + expr[i + 1:])
+
+
+def extra_evidence():
+    trees = list(_trees)
+    sizes = {'zero_byte_files': 0, 'one_byte_files': 0, 'multi_line_files': 0, 'larger_files': 0}
+    attrs = {}
+    names = {'hidden_names': 0, 'codec_extension_names': 0}
+    saved_dirs = empty_parts_in_saved = 0
+    for files, contents, ats in trees:
+        for f, t, a in zip(files, contents, ats):
+            sizes['zero_byte_files'] += t == ''
+            sizes['one_byte_files'] += len(t) == 1
+            sizes['multi_line_files'] += t.count('\n') > 1
+            sizes['larger_files'] += len(t) > 100
+            attrs[['plain', 'symlink', 'written_by_saveAsTextFile', 'read_only', 'old_mtime'][a]] = \
+                attrs.get(['plain', 'symlink', 'written_by_saveAsTextFile', 'read_only', 'old_mtime'][a], 0) + 1
+            names['hidden_names'] += posixpath.basename(f).startswith(('.', '_'))
+            names['codec_extension_names'] += f.endswith(tuple(CODECS))
+            if a == SAVED and posixpath.basename(f) == '_SUCCESS':
+                saved_dirs += 1
+            if a == SAVED and posixpath.basename(f).startswith('part-') and t == '':
+                empty_parts_in_saved += 1
+    return {'c20_trees': {'distinct_trees_built': len(trees), **sizes, 'file_attributes': attrs, **names,
+                          'directories_written_by_saveAsTextFile': saved_dirs,
+                          'empty_part_files_in_them': empty_parts_in_saved,
+                          'saved_files_rewritten_to_match_the_case': SAVE_REWRITES[0]}}
